@@ -17,6 +17,8 @@ CLAIMED = {
          "provenance paths of version arguments + who-may-call on raw batch deletes + path rule on the latest-state shortcut"),
  "C16": ("two necessary conditions: the commitment tree is read from the prefix it is written under (write path Root vs read path NewReadOnly); VerifyProof returns true only after the recomputed root equals the given root",
          "writer/reader constant agreement + path-sensitive must-pass-through"),
+ "C12": ("marker/record/tally discipline: every validator-record deletion removes its deferred-action markers on the same path; marker and record are written together with the same height; stake changes update the tallies with the same value; deferred consumers delete exactly what they consumed; at most one unstaking/paused marker per validator",
+         "path-sensitive pairing analysis (SSA) + provenance equality of amounts/heights + who-may-write"),
 }
 
 NOT_APPLICABLE = {
